@@ -98,6 +98,8 @@ struct Run {
     calm_phase: bool,
     /// per dispatch: the phase was calm and after this send every worker was still below its limit
     dcalm: Vec<bool>,
+    /// per dispatch: the accept thread's availability bits (by worker index) right after it
+    davail: Vec<Vec<bool>>,
     ever_faulted: bool,
     pending_faults: Vec<usize>,
     injected: Vec<usize>, // outstanding injected errors per listener
@@ -198,7 +200,7 @@ impl Run {
             "served": served, "closed": closed,
             "listener": s.listener.iter().map(|l| l + 1).collect::<Vec<_>>(),
             "connected": s.connected,
-            "dlog": self.dlog.iter().enumerate().map(|(k, d)| json!([d.0, d.1, d.2, d.3, d.4, d.5, self.dcalm.get(k).copied().unwrap_or(false)])).collect::<Vec<_>>(),
+            "dlog": self.dlog.iter().enumerate().map(|(k, d)| json!([d.0, d.1, d.2, d.3, d.4, d.5, self.dcalm.get(k).copied().unwrap_or(false), self.davail.get(k).cloned().unwrap_or_default()])).collect::<Vec<_>>(),
             "faults": s.faults, "everFaulted": self.ever_faulted,
             "cmdq": pending_faults(s),
             "skipped": s.skipped,
@@ -348,6 +350,7 @@ fn run_schedule(run_id: usize, sch: &Value, dir: &str, trace: &mut Trace, strict
         dlog: vec![],
         calm_phase: false,
         dcalm: vec![],
+        davail: vec![],
         ever_faulted: false,
         pending_faults: vec![],
         injected: vec![0; listeners.len()],
@@ -605,6 +608,7 @@ fn absorb(run: &mut Run, s: &Snap) {
             (cid + 1, *wi, s.dclean.get(k).copied().unwrap_or(false), s.dload.get(k).copied().unwrap_or(0), s.dafterfail.get(k).copied().unwrap_or(false), *gen)
         })
         .collect();
+    run.davail = s.davail.iter().map(|m| (0..run.killed.len()).map(|i| m & (1 << i) != 0).collect()).collect();
     for k in run.dcalm.len()..s.dispatched.len() {
         let below = s.dmaxload.get(k).map(|m| *m < run.limit).unwrap_or(false);
         run.dcalm.push(run.calm_phase && below);
